@@ -131,6 +131,10 @@ def seq_cases(rng, tier):
         for _k in range(rng.range(1, 6)):
             if rng.chance(1, 6):
                 ops.append([1, rng.below(2)])
+            elif rng.chance(1, 8):
+                # the log file is renamed away by somebody else (external rotation), then a new appender is built on
+                # the path WHILE THE OLD ONE IS STILL ALIVE (a configuration reload), then the old one is dropped
+                ops.append([3, rng.below(2)])
             elif enc == 0 and rng.chance(1, 7):
                 r = seq_record(rng, False, min(budget, 1500))
                 budget -= sum(len(c) for c in r)
@@ -420,4 +424,66 @@ def extra_checks(ctx, cases, impl_lines, model_lines):
                        for a in apps.values())
         except Exception:
             return False
-    return xcheck.borrow(ctx, "C14", "a file appender declared in a configuration file", has_file_appender, n=60)
+    res = xcheck.borrow(ctx, "C14", "a file appender declared in a configuration file", has_file_appender, n=60)
+    return res + full_disk_checks(ctx)
+
+
+def full_disk_oracle(a, pre, oks, final, recs):
+    """every record whose append returned Ok is in the file, whole, in call order, after the content that was there
+    before (append mode); what failed calls leave behind is not constrained"""
+    pos = 0
+    if a and pre:
+        if not final.startswith(pre):
+            return "the content that existed before the appender was built is not at the start of the file"
+        pos = len(pre)
+    for i, (ok, rec) in enumerate(zip(oks, recs)):
+        if not ok:
+            continue
+        data = b"".join(rec)
+        at = final.find(data, pos)
+        if at < 0:
+            return ("record %d (%d bytes), acknowledged with Ok, is not in the file as a whole after the earlier "
+                    "acknowledged records (file: %d bytes)" % (i, len(data), len(final)))
+        pos = at + len(data)
+    return None
+
+
+def full_disk_checks(ctx):
+    """the disk is full for a while (RLIMIT_FSIZE, harness kind 5): appends fail, the limit is lifted, appends work
+    again - on ONE appender, both open modes, records around the BufWriter capacity"""
+    vc = ctx["vc"]
+    rng = vc.Rng(ctx["seed"] * 77 + 5)
+    cases = []
+    for a in (1, 0):
+        for pre in (b"", b"OLD-CONTENT\n", bytes(range(65, 91)) * 50):
+            for room in (0, 1, 10, 1023, 1024, 1500, 3000):
+                for _ in range(2):
+                    recs = []
+                    for i in range(rng.range(3, 7)):
+                        n = rng.choice([1, 9, 40, 700, 1023, 1024, 1025, 2100])
+                        data = tagged(rng, 0, i, max(n, 12), 1)
+                        recs.append(split(rng, data, rng.range(1, 3)))
+                    cases.append([5, a, [1, pre] if pre or rng.chance(1, 2) else [0], room, rng.range(1, len(recs) - 1), recs])
+    lines = [vc.show(c) for c in cases]
+    res = vc.run_lines([ctx["vh"]], lines, timeout_per_batch=300)
+    bad = []
+    failed_calls = 0
+    for c, ln, r in zip(cases, lines, res):
+        try:
+            v = vc.parse(r)
+            oks, final = [bool(x) for x in v[0]], bytes(v[1])
+        except Exception:
+            bad.append(("full disk for a while: the appender did not survive (%s)" % r[:100], {"case_line": ln}))
+            break
+        failed_calls += sum(1 for x in oks if not x)
+        pre = bytes(c[2][1]) if c[2][0] == 1 else b""
+        d = full_disk_oracle(c[1], pre, oks, final, [[bytes(x) for x in rec] for rec in c[5]])
+        if d:
+            bad.append(("the disk was full while the first %d records were appended (room for %d more bytes), then not any "
+                        "more; mode %s; calls returned %r: %s" % (c[4], c[3], "append" if c[1] else "truncate",
+                                                                  ["Ok" if x else "Err" for x in oks], d),
+                        {"case_line": ln}))
+            break
+    ctx.setdefault("xcheck", {})["full_disk_histories"] = len(cases)
+    ctx["xcheck"]["full_disk_failed_calls"] = failed_calls
+    return bad
